@@ -213,6 +213,53 @@ theorem key_forms_resolve (s : State) (h : Coherent s) (k : String) (o : Obj)
   · simp [elemPos, keyPos, lookup] at hk ⊢; simp [hk, hlt]
   · simp [List.getElem?_eq_getElem hlt]
 
+private theorem id_inj_of_nodup : ∀ (l : List Obj), (l.map (·.id)).Nodup →
+    ∀ a ∈ l, ∀ b ∈ l, a.id = b.id → a = b
+  | [], _, a, ha, _, _, _ => by simp at ha
+  | x :: t, hn, a, ha, b, hb, hab => by
+    simp only [List.map_cons, List.nodup_cons, List.mem_map, not_exists, not_and] at hn
+    rcases List.mem_cons.mp ha with rfl | ha' <;> rcases List.mem_cons.mp hb with rfl | hb'
+    · rfl
+    · exact absurd hab.symm (hn.1 b hb')
+    · exact absurd hab (hn.1 a ha')
+    · exact id_inj_of_nodup t hn.2 a ha' b hb' hab
+
+/-- when ids are unique (the case every library is meant to be in), the index is a function of
+    the list alone: `L[k]` is the first — the only — element whose id is `k`, in every reachable
+    state, whatever the history of mutations that led there -/
+theorem lookup_eq_find_of_unique_ids (s : State) (h : Coherent s)
+    (hn : (s.items.map (·.id)).Nodup) (k : String) :
+    lookup s k = s.items.find? (fun o => o.id == k) := by
+  cases hl : lookup s k with
+  | some o =>
+    obtain ⟨hm, hid⟩ := h.1 k o hl
+    cases hf : s.items.find? (fun o => o.id == k) with
+    | none =>
+      have := List.find?_eq_none.mp hf o hm
+      simp [hid] at this
+    | some o' =>
+      have hm' := List.mem_of_find?_eq_some hf
+      have hid' : o'.id = k := by simpa using List.find?_some hf
+      rw [id_inj_of_nodup s.items hn o hm o' hm' (hid.trans hid'.symm)]
+  | none =>
+    symm
+    apply List.find?_eq_none.mpr
+    intro o hm hk
+    have hk' : o.id = k := by simpa using hk
+    have := h.2 o hm
+    rw [hk'] at this
+    unfold lookup at hl
+    simp [hl] at this
+
+/-- … and so two histories that end in the same list with unique ids answer every by-id query
+    alike: nothing of the history survives in the index -/
+theorem history_independent (os os' : List Obj) (ops ops' : List Op)
+    (he : (run (mk os) ops).items = (run (mk os') ops').items)
+    (hn : ((run (mk os) ops).items.map (·.id)).Nodup) (k : String) :
+    lookup (run (mk os) ops) k = lookup (run (mk os') ops') k := by
+  rw [lookup_eq_find_of_unique_ids _ (coherent_reachable os ops) hn,
+      lookup_eq_find_of_unique_ids _ (coherent_reachable os' ops') (he ▸ hn), he]
+
 /-! ### non-vacuity: a concrete reachable state with a duplicate id, and the operations on it -/
 
 def a0 : Obj := ⟨0, "a"⟩
@@ -227,5 +274,8 @@ example : (step (mk [a0, b1, a2]) (.pop (some (.pos 7)))).2 = .fail .indexError 
 example : (step (mk [a0, b1, a2]) (.removeKey "zz")).2 = .fail .valueError := by decide
 example : (run (mk [a0, b1, a2]) [.insert (.pos 9) d3, .delslice (some 0) (some 2), .iadd [b1]]).items
     = [a2, d3, b1] := by decide
+-- premises of `history_independent` are satisfiable by two different histories
+example : (run (mk [a0, b1, a2]) [.delitem (.pos 0)]).items = (run (mk [b1]) [.append a2]).items ∧
+    ((run (mk [a0, b1, a2]) [.delitem (.pos 0)]).items.map (·.id)).Nodup := by decide
 
 end Pyc.Props.C14
